@@ -25,6 +25,7 @@ type HSpec struct {
 	TimeoutMs    int    `json:"timeout_ms,omitempty"`
 	ReplayRepeat int    `json:"replay_repeat,omitempty"`
 	IntArith     bool   `json:"int_arith,omitempty"`
+	RangeFacts   bool   `json:"range_facts,omitempty"`
 }
 
 type PropSpec struct {
@@ -145,9 +146,14 @@ func cmdCheck(args []string) {
 	baseCfg.Thorough = tier == "thorough"
 	baseCfg.Workers = *workers
 	baseCfg.CrossCheck = 10
+	baseCfg.BudgetS = 900 // per harness; exceeding it ends the check INCONCLUSIVE (exit 2)
 	if baseCfg.Thorough {
 		baseCfg.TimeoutMs = 600000
 		baseCfg.CrossCheck = 150
+		baseCfg.BudgetS = 3600
+	}
+	if v := os.Getenv("GOSYM_BUDGET_S"); v != "" {
+		baseCfg.BudgetS, _ = strconv.Atoi(v)
 	}
 	if v := os.Getenv("GOSYM_CROSSCHECK"); v != "" {
 		baseCfg.CrossCheck, _ = strconv.Atoi(v)
@@ -198,6 +204,7 @@ func cmdCheck(args []string) {
 		}
 		cfg := *baseCfg
 		cfg.PermuteMaps = hs.PermuteMaps
+		cfg.RangeFacts = hs.RangeFacts
 		cfg.CheckIntOverflow = hs.IntOverflow
 		if hs.MaxDecisions > 0 {
 			cfg.MaxDecisions = hs.MaxDecisions
